@@ -546,6 +546,8 @@ type FuncSpec struct {
 	Line     int
 
 	GhostSets []*GhostSet
+	// TrustFrame: `trustframe` — the declared frame (possibly empty) is assumed at call sites without being checked
+	TrustFrame bool
 }
 
 // GhostSet: `ghostset g(x) = e`.
@@ -609,7 +611,7 @@ type PkgSweep struct {
 var clauseKeywords = map[string]bool{
 	"func": true, "requires": true, "ensures": true, "modifies": true, "pure": true, "inline": true, "opaque": true,
 	"panics": true, "floats": true, "loop": true, "invariant": true, "decreases": true, "at": true, "assert": true,
-	"spec": true, "ghost": true, "sweep-package": true, "lemma": true, "extern": true, "props": true, "let": true, "trusted": true, "axiom": true, "nobody": true, "sweep": true, "reads": true, "noframe": true, "ghostset": true,
+	"spec": true, "ghost": true, "sweep-package": true, "lemma": true, "extern": true, "props": true, "let": true, "trusted": true, "axiom": true, "nobody": true, "sweep": true, "reads": true, "noframe": true, "ghostset": true, "trustframe": true,
 }
 
 type rawClause struct {
@@ -973,6 +975,13 @@ func parseContractFile(path, pkg string) (*ContractFile, error) {
 		case "noframe":
 			if fn != nil {
 				fn.NoFrame = true
+			}
+		case "trustframe":
+			// the function writes nothing that existed before the call except what its modifies clauses name; this is
+			// NOT checked against the body (noframe is implied) and is listed in the evidence as an assumption
+			if fn != nil {
+				fn.NoFrame = true
+				fn.TrustFrame = true
 			}
 		case "nobody":
 			if fn == nil {
